@@ -212,7 +212,8 @@ def _value_refs(expr, name):
 
 def first_access(nodes, name, nested=False):
     """Statically first access of variable `name` in the statement list:
-    None | (kind, nested) with kind 'R' (read), 'W' (assignment target or
+    None | (kind, nested) with kind 'R' (read), 'RB' (read of a loop's own
+    variable in that loop's start/stop/step), 'W' (assignment target or
     loop variable), 'RW' (argument of a call / anything else); `nested` is
     True if the access sits inside an IfBlock / Loop / WhileLoop body below
     the statement list."""
@@ -239,7 +240,9 @@ def _first_in_stmt(node, name, nested):
     if isinstance(node, Loop):
         for expr in (node.start_expr, node.stop_expr, node.step_expr):
             if _value_refs(expr, name):
-                return ("R", nested)
+                # 'RB': a bound of the loop reads the loop's own variable
+                return ("RB" if node.variable.name.lower() == name
+                        else "R", nested)
         if node.variable.name.lower() == name:
             return ("W", nested)
         return first_access(node.loop_body.children, name, True)
@@ -315,6 +318,14 @@ def cls_conditional_write_first(case):
     loop / WHILE body below the region: the write need not execute."""
     fac, arr = _case_facts(case)
     return bool(not arr and fac and fac[0] == "W" and fac[1])
+
+
+def cls_loop_bound_reads_loop_variable(case):
+    """The missing input is a loop variable whose statically first access
+    in the region is a read in the start/stop/step expression of its own
+    loop ('do j = j - 1, 3')."""
+    fac, arr = _case_facts(case)
+    return bool(not arr and fac and fac[0] == "RB")
 
 
 # ----------------------------------------------------------------------
